@@ -531,6 +531,10 @@ pub fn cli(ctx: &Ctx) -> Stats {
         let _ = std::fs::remove_file(&fpath);
         fifo_done.store(true, std::sync::atomic::Ordering::Relaxed);
         let fifo_data = fifo_reader.map(|h| h.join().unwrap_or_default());
+        // a tool that publishes its result by renaming a finished file over `-o` turns the pipe into a regular file: the
+        // reader of the pipe then receives nothing, but the path holds the result — C10 speaks about the listing, not about
+        // what kind of file `-o` is, so such a run is judged on the file it left (and counted separately)
+        let replaced_by_file: Option<Vec<u8>> = if fifo && std::fs::symlink_metadata(&outp).map_or(false, |m| m.file_type().is_file()) { std::fs::read(&outp).ok() } else { None };
         if fifo {
             let _ = std::fs::remove_file(&outp);
         }
@@ -547,9 +551,13 @@ pub fn cli(ctx: &Ctx) -> Stats {
             st.violate(sig, format!("min failed: {}", res.describe()), case());
             return;
         }
-        let data = match fifo_data {
-            Some(d) => d,
-            None => std::fs::read(&outp).unwrap_or_default(),
+        let data = match (fifo_data, replaced_by_file) {
+            (Some(_), Some(file)) => {
+                st.class("named-pipe output replaced by a regular file (judged on the file)");
+                file
+            }
+            (Some(d), None) => d,
+            (None, _) => std::fs::read(&outp).unwrap_or_default(),
         };
         let r = match mode {
             MinMode::S2m => check_s2m(&data, &recs, w, m),
